@@ -153,8 +153,12 @@ def ask(srv, stub, req):
     return "%d %s" % (st, c)
 
 
-def ask_all(srv, stub, reqs):
-    return [ask(srv, stub, r) for r in reqs]
+def ask_all(srv, stub, reqs, reverse=False):
+    """reverse=True: the requests are SENT last-first (the answers come back in list order): right after a refresh the very
+    request the server answered last before it is then the first one it sees again"""
+    if not reverse:
+        return [ask(srv, stub, r) for r in reqs]
+    return [ask(srv, stub, r) for r in reversed(reqs)][::-1]
 
 
 def update(srv, names):
@@ -241,7 +245,7 @@ def run_history(binary, spec, workdir, keep_on_failure=True):
         ok, reply = update(old, names)
         if not ok:
             fail("the reply of /updateCache?names=%s is not the success object" % names, phase="A->B", update_reply=reply)
-        a1 = ask_all(old, stub, reqs) if old.alive() else ["noreply (server dead)"] * len(reqs)
+        a1 = ask_all(old, stub, reqs, reverse=True) if old.alive() else ["noreply (server dead)"] * len(reqs)
         fresh = l3.Server(binary, cache, stub.port, threads=1, cache_all=cache_all)
         f1 = ask_all(fresh, stub, reqs)
         for i, r in enumerate(reqs):
@@ -273,7 +277,7 @@ def run_history(binary, spec, workdir, keep_on_failure=True):
             ok, reply = update(old, names)
             if not ok:
                 fail("the reply of /updateCache?names=%s is not the success object" % names, phase="B->A", update_reply=reply)
-            a2 = ask_all(old, stub, reqs)
+            a2 = ask_all(old, stub, reqs, reverse=True)
             for i, r in enumerate(reqs):
                 evals += 1
                 if a2[i] != a0[i]:
@@ -386,7 +390,7 @@ def run_random_history(binary, spec, workdir):
             if not old.alive():
                 fail("the refreshed server died", phase="step %d (%s)" % (k + 1, st["kind"]), update=upd, exit_status=old.exit_status(), log=old.crash_report())
                 break
-            a1 = ask_all(old, stub, reqs)
+            a1 = ask_all(old, stub, reqs, reverse=(k % 2 == 0))
             fresh = l3.Server(binary, cache, stub.port, threads=1, cache_all=cache_all)
             f1 = ask_all(fresh, stub, reqs)
             fresh.stop(); fresh = None
